@@ -40,6 +40,19 @@ func witnessUpdateProducer() string {
 	if st.GetProducer(k0) == nil {
 		return "producer registration was not taken by the DPoS state"
 	}
+	// producers a CancelProducer of the pair stage may name (node key = owner key): the pool
+	// derives the cancel key from the registered node key
+	var regs []interfaces.Transaction
+	for _, seed := range cancelOwnerSeeds() {
+		pi := &payload.ProducerInfo{OwnerKey: pub(seed), NodePublicKey: pub(seed), NickName: fmt.Sprintf("cancel-%02x", seed), Url: "http://example.org", Location: 1, NetAddress: "127.0.0.1:20338"}
+		regs = append(regs, functions.CreateTransaction(ctypes.TxVersion09, ctypes.RegisterProducer, 0, pi, nil, nil, nil, 0, []*pg.Program{}))
+	}
+	st.ProcessBlock(&types.Block{Header: ctypes.Header{Height: 1}, Transactions: regs}, nil, 0)
+	for _, seed := range cancelOwnerSeeds() {
+		if st.GetProducer(pub(seed)) == nil {
+			return "pair-stage producer registration was not taken by the DPoS state"
+		}
+	}
 	up1, up2 := menu[menuIndex("UP1")], menu[menuIndex("UP2")]
 	check := func(m *mtx, height uint32) error { return checkReal(chain, m, height) }
 	if err := check(up1, 2); err != nil {
